@@ -184,7 +184,7 @@ def run_verus_unit(prop, u, workdir, variant="main"):
     res = {"unit": unit, "variant": variant, "status": None, "errors": [], "backend": "verus/z3"}
     try:
         with ASSEMBLE_LOCK:
-            text, info = extract.assemble(tpl, REPO, variant=variant)
+            text, info = extract.assemble(tpl, REPO, variant=("main" if variant.startswith("seed:") else variant))
     except extract.Lost as e:
         res.update(status="lost-anchor", detail=str(e), wall_s=time.time() - t0)
         return res
@@ -198,6 +198,8 @@ def run_verus_unit(prop, u, workdir, variant="main"):
     res["info"] = info
     cmd = [VERUS, rs, "--output-json", "--time", "--rlimit", str(u.get("rlimit", 20)), "--triggers-mode", "silent",
            "--multiple-errors", "4", "--num-threads", str(u.get("threads", 8))]
+    if variant.startswith("seed:"):
+        cmd += ["--smt-option", "smt.random_seed=" + variant[5:]]
     res["cmd"] = " ".join(cmd)
     try:
         p = subprocess.run(cmd, capture_output=True, text=True, timeout=u.get("timeout", 600), cwd=workdir)
@@ -299,6 +301,10 @@ def main(argv):
                     jobs.append(ex.submit(run_verus_unit, prop, u, workdir, "reach"))
                     for cls in exit_classes(u):
                         jobs.append(ex.submit(run_verus_unit, prop, u, workdir, "exit:" + ",".join(cls)))
+                if tier == "thorough":
+                    # instability detector: the same unit under other SMT seeds must give the same verdict
+                    for sd in (1, 2, 3):
+                        jobs.append(ex.submit(run_verus_unit, prop, u, workdir, "seed:%d" % sd))
             kfut = None
             if cfg.get("kani") and not only_unit:
                 kfut = ex.submit(kanirun.run_group, prop, cfg["kani"], tier, REPO, VERIF, seed)
@@ -351,6 +357,11 @@ def report(prop, tier, seed, cfg, results, kres, known, t0):
                         continue
                     path = write_replay(prop, unit, oid, e, r)
                     violations.append((oid, path, "no-failing-input-found", e))
+        elif variant.startswith("seed:"):
+            main = [m for m in results if m["unit"] == unit and m["variant"] == "main"]
+            if main and main[0]["status"] != r["status"]:
+                undecided.append("%s: UNSTABLE proof - verdict `%s` under SMT seed %s but `%s` under the default seed" % (unit, r["status"], variant[5:], main[0]["status"]))
+            guards.setdefault("seed_runs", 0); guards["seed_runs"] += 1
         else:
             if r["status"] in ("lost-anchor", "tool-error"):
                 undecided.append("%s[%s guard]: %s %s" % (unit, variant, r["status"], (r.get("detail") or "")[:300]))
